@@ -139,74 +139,7 @@ def run(ctx, idx):
             ctx.violate("C13.c", con, rel, fn.lineno, "; ".join(probs))
         else:
             ctx.hold("C13.c", con, rel, fn.lineno, "conversions proven safe by language inclusion / guarded")
-    # ------------------------------------------------------------------ d
-    root, excs = tables.exception_classes(idx)
-    n_sup = 0
-    for ci in excs:
-        init = ci.methods.get("__init__")
-        if init is None:
-            continue
-        for n in own_nodes(init.node):
-            if isinstance(n, ast.Call) and K.is_super_call(n, "__init__"):
-                n_sup += 1
-                con = "%s::%s.__init__::super" % (ci.module.rel, ci.name)
-                sa = n.func.value.args
-                ok = True
-                why = "super(%s, self).__init__" % ci.name
-                if sa:
-                    r = idx.resolve(ci.module, sa[0], init)
-                    if not (r and r[0] == "class" and r[1] in idx.mro(ci)):
-                        ok = False
-                        why = "super(%s, self) inside class %s: %s is not a base of %s, so constructing the error raises TypeError" % (K.src(sa[0]), ci.name, K.src(sa[0]), ci.name)
-                    after = r[1] if r and r[0] == "class" else ci
-                else:
-                    after = ci
-                if ok:
-                    base_init = idx.find_method(ci, "__init__", after=after)
-                    if base_init is not None:
-                        params = base_init.node.args.args[1:]
-                        nreq = len(params) - len(base_init.node.args.defaults)
-                        npos = len(n.args)
-                        kw = {k.arg for k in n.keywords}
-                        names = [p.arg for p in params]
-                        if npos > len(params) and base_init.node.args.vararg is None:
-                            ok = False
-                            why = "passes %d positional argument(s) to %s.__init__, which takes %d" % (npos, base_init.cls.name, len(params))
-                        elif any(k not in names for k in kw if k) and base_init.node.args.kwarg is None:
-                            ok = False
-                            why = "passes unknown keyword(s) %s to %s.__init__" % (sorted(kw - set(names)), base_init.cls.name)
-                        elif npos + len(kw & set(names[:nreq])) < nreq and len([x for x in names[:nreq] if x not in kw]) > npos:
-                            ok = False
-                            why = "omits required argument(s) of %s.__init__" % base_init.cls.name
-                ctx.ob("C13.d", con, ci.module.rel, n.lineno, ok, why, nontrivial=not ok)
-    ctx.floor("C13.d", "super().__init__ calls in exception classes", n_sup, 20)
-    # every raise site in the package constructs its class with fitting arguments
-    n_ct = 0
-    for mod, f, n in K.scoped_nodes(idx):
-        if isinstance(n, ast.Raise) and isinstance(n.exc, ast.Call):
-            r = idx.resolve(mod, n.exc.func, f)
-            if r and r[0] == "class" and root in idx.mro(r[1]):
-                init = idx.find_method(r[1], "__init__")
-                if init is None:
-                    continue
-                n_ct += 1
-                params = init.node.args.args[1:]
-                names = [p.arg for p in params]
-                nreq = len(params) - len(init.node.args.defaults)
-                npos = len(n.exc.args)
-                kw = {k.arg for k in n.exc.keywords}
-                bad = None
-                if npos > len(params) and init.node.args.vararg is None:
-                    bad = "too many positional arguments"
-                elif any(k not in names for k in kw if k) and init.node.args.kwarg is None:
-                    bad = "unknown keyword %s" % sorted(kw - set(names))
-                elif len([x for x in names[:nreq] if x not in kw]) > npos:
-                    bad = "missing required argument(s) %s" % [x for x in names[:nreq] if x not in kw][npos:]
-                elif set(names[:npos]) & kw:
-                    bad = "argument given twice"
-                if bad:
-                    ctx.violate("C13.d", "%s::construct(%s)" % (K.where(mod, f), r[1].name), mod.rel, n.lineno, "`%s` cannot be constructed (%s): a TypeError escapes instead of the MPilot error" % (K.src(n.exc)[:70], bad))
-    ctx.floor("C13.d", "raise sites constructing MPilot errors", n_ct, 40)
+    exception_construct(ctx, idx, "C13.d")
     # ------------------------------------------------------------------ e
     cli = idx.func("mpilot.cli.mpilot", "main")
     c = K.cfg_of(idx, cli)
@@ -251,3 +184,82 @@ def K_const(idx, fi, e):
         return idx.const(fi.module, e, fi)
     except KeyError:
         return None
+
+
+def exception_construct(ctx, idx, rule, only_module=None, floors=True):
+    """every error class's super().__init__ and every raise site construct (C13.d / C18.c)"""
+    root, excs = tables.exception_classes(idx)
+    n_sup = 0
+    for ci in excs:
+        if only_module and not ci.module.name.startswith(only_module):
+            continue
+        init = ci.methods.get("__init__")
+        if init is None:
+            continue
+        for n in own_nodes(init.node):
+            if isinstance(n, ast.Call) and K.is_super_call(n, "__init__"):
+                n_sup += 1
+                con = "%s::%s.__init__::super" % (ci.module.rel, ci.name)
+                sa = n.func.value.args
+                ok = True
+                why = "super(%s, self).__init__" % ci.name
+                if sa:
+                    r = idx.resolve(ci.module, sa[0], init)
+                    if not (r and r[0] == "class" and r[1] in idx.mro(ci)):
+                        ok = False
+                        why = "super(%s, self) inside class %s: %s is not a base of %s, so constructing the error raises TypeError" % (K.src(sa[0]), ci.name, K.src(sa[0]), ci.name)
+                    after = r[1] if r and r[0] == "class" else ci
+                else:
+                    after = ci
+                if ok:
+                    base_init = idx.find_method(ci, "__init__", after=after)
+                    if base_init is not None:
+                        params = base_init.node.args.args[1:]
+                        nreq = len(params) - len(base_init.node.args.defaults)
+                        npos = len(n.args)
+                        kw = {k.arg for k in n.keywords}
+                        names = [p.arg for p in params]
+                        if npos > len(params) and base_init.node.args.vararg is None:
+                            ok = False
+                            why = "passes %d positional argument(s) to %s.__init__, which takes %d" % (npos, base_init.cls.name, len(params))
+                        elif any(k not in names for k in kw if k) and base_init.node.args.kwarg is None:
+                            ok = False
+                            why = "passes unknown keyword(s) %s to %s.__init__" % (sorted(kw - set(names)), base_init.cls.name)
+                        elif len([x for x in names[:nreq] if x not in kw]) > npos:
+                            ok = False
+                            why = "omits required argument(s) of %s.__init__" % base_init.cls.name
+                ctx.ob(rule, con, ci.module.rel, n.lineno, ok, why, nontrivial=not ok)
+    if floors:
+        ctx.floor(rule, "super().__init__ calls in exception classes", n_sup, 20)
+    n_ct = 0
+    for mod, f, n in K.scoped_nodes(idx):
+        if only_module and not mod.name.startswith(only_module):
+            continue
+        if isinstance(n, ast.Raise) and isinstance(n.exc, ast.Call):
+            r = idx.resolve(mod, n.exc.func, f)
+            if r and r[0] == "class" and root in idx.mro(r[1]):
+                init = idx.find_method(r[1], "__init__")
+                if init is None:
+                    continue
+                n_ct += 1
+                params = init.node.args.args[1:]
+                names = [p.arg for p in params]
+                nreq = len(params) - len(init.node.args.defaults)
+                npos = len(n.exc.args)
+                kw = {k.arg for k in n.exc.keywords}
+                bad = None
+                if npos > len(params) and init.node.args.vararg is None:
+                    bad = "too many positional arguments"
+                elif any(k not in names for k in kw if k) and init.node.args.kwarg is None:
+                    bad = "unknown keyword %s" % sorted(kw - set(names))
+                elif len([x for x in names[:nreq] if x not in kw]) > npos:
+                    bad = "missing required argument(s) %s" % [x for x in names[:nreq] if x not in kw][npos:]
+                elif set(names[:npos]) & kw:
+                    bad = "argument given twice"
+                if bad:
+                    ctx.violate(rule, "%s::construct(%s)" % (K.where(mod, f), r[1].name), mod.rel, n.lineno, "`%s` cannot be constructed (%s): a TypeError escapes instead of the MPilot error" % (K.src(n.exc)[:70], bad))
+                else:
+                    ctx.hold(rule, "%s::construct(%s)" % (K.where(mod, f), r[1].name), mod.rel, n.lineno, "arguments fit %s.__init__" % r[1].name, nontrivial=False)
+    if floors:
+        ctx.floor(rule, "raise sites constructing MPilot errors", n_ct, 40)
+    return n_sup, n_ct
